@@ -71,13 +71,22 @@ func ssText(ss *graphql.SelectionSet) string {
 			b, _ := json.Marshal(s.UnparsedArgs)
 			t += "(" + string(b) + ")"
 		}
+		for _, d := range s.Directives {
+			b, _ := json.Marshal(d.Args)
+			t += " @" + d.Name + string(b)
+		}
 		if s.SelectionSet != nil {
 			t += " { " + ssText(s.SelectionSet) + " }"
 		}
 		parts = append(parts, t)
 	}
 	for _, f := range ss.Fragments {
-		parts = append(parts, "... on "+f.On+" { "+ssText(f.SelectionSet)+" }")
+		t := "... on " + f.On
+		for _, d := range f.Directives {
+			b, _ := json.Marshal(d.Args)
+			t += " @" + d.Name + string(b)
+		}
+		parts = append(parts, t+" { "+ssText(f.SelectionSet)+" }")
 	}
 	return strings.Join(parts, " ")
 }
@@ -344,9 +353,15 @@ func runMonolith(c *Case, w *fedgen.World) (interface{}, string) {
 }
 
 func runGateway(g *gateway, c *Case) (res interface{}, errs string, timedOut bool) {
+	res, errs, timedOut, _ = runGateway2(g, c)
+	return
+}
+
+func runGateway2(g *gateway, c *Case) (res interface{}, errs string, timedOut bool, mutated string) {
 	type out struct {
-		v   interface{}
-		err string
+		v       interface{}
+		err     string
+		mutated string
 	}
 	ch := make(chan out, 1)
 	ctx, cancel := context.WithTimeout(context.Background(), 3*time.Second)
@@ -364,6 +379,7 @@ func runGateway(g *gateway, c *Case) (res interface{}, errs string, timedOut boo
 			o.err = "parse: " + err.Error()
 			return
 		}
+		before := ssText(q.SelectionSet)
 		v, _, err := g.exec.Execute(ctx, q, nil)
 		if err != nil {
 			o.err = "execute: " + firstLine(err.Error())
@@ -372,13 +388,24 @@ func runGateway(g *gateway, c *Case) (res interface{}, errs string, timedOut boo
 		o.v, err = canonJSON(v)
 		if err != nil {
 			o.err = "marshal: " + err.Error()
+			return
+		}
+		// the gateway must leave the parsed query as it found it ...
+		if after := ssText(q.SelectionSet); after != before {
+			o.mutated = "parsed query changed by Execute: " + short(before, 300) + "  ==>  " + short(after, 300)
+		}
+		// ... so executing the same parsed query again gives the same answer
+		if v2, _, err2 := g.exec.Execute(ctx, q, nil); err2 != nil {
+			o.mutated = "second Execute of the same parsed query fails: " + firstLine(err2.Error())
+		} else if c2, _ := canonJSON(v2); !reflect.DeepEqual(c2, o.v) && o.mutated == "" {
+			o.mutated = "second Execute of the same parsed query answers differently: " + short(js(c2), 300) + " vs " + short(js(o.v), 300)
 		}
 	}()
 	select {
 	case o := <-ch:
-		return o.v, o.err, false
+		return o.v, o.err, false, o.mutated
 	case <-time.After(4 * time.Second):
-		return nil, "timeout", true
+		return nil, "timeout", true, ""
 	}
 }
 
